@@ -431,6 +431,18 @@ class ExecMixin(object):
         return self.run_block(stmt.body, st)
 
     def st_Delete(self, stmt, st):
+        # del d[k] on a symbolic string-keyed dict
+        if len(stmt.targets) == 1 and isinstance(stmt.targets[0], ast.Subscript) and not isinstance(stmt.targets[0].slice, ast.Slice):
+            t = stmt.targets[0]
+            base = self.ev(t.value, st)
+            idx = self.ev(t.slice, st)
+            if isinstance(base, VRef) and isinstance(st.heap[base.oid], HDict) and st.heap[base.oid].items is None:
+                cell = st.heap[base.oid]
+                k = self.want_str(idx, st, stmt)
+                self.safety(st, "KeyError", z3.Select(cell.keys, k), stmt, "del of a missing key")
+                size = None if cell.size is None else cell.size - 1
+                st.heap[base.oid] = HDict(cell.ek, z3.Store(cell.keys, k, False), cell.vals, default=cell.default, size=size)
+                return [(NORMAL, st, None)]
         raise OutOfSubset("del", stmt)
 
     def st_Try(self, stmt, st):
@@ -476,10 +488,18 @@ class ExecMixin(object):
     def st_For(self, stmt, st):
         spec, ordn = self.loop_spec(stmt)
         enum = False
+        dict_items = False
         if isinstance(stmt.iter, ast.Call) and isinstance(stmt.iter.func, ast.Name) and stmt.iter.func.id == "enumerate" \
                 and len(stmt.iter.args) == 1:
             it = self.ev(stmt.iter.args[0], st)
             enum = True
+        elif isinstance(stmt.iter, ast.Call) and isinstance(stmt.iter.func, ast.Attribute) and stmt.iter.func.attr == "items" \
+                and not stmt.iter.args and not stmt.iter.keywords:
+            it = self.ev(stmt.iter.func.value, st)
+            if not (isinstance(it, VRef) and isinstance(st.heap[it.oid], HDict) and st.heap[it.oid].items is None
+                    and not isinstance(st.heap[it.oid].ek, tuple)):
+                raise OutOfSubset(".items() of %r" % (it,), stmt)
+            dict_items = True
         else:
             it = self.ev(stmt.iter, st)
         # static iteration: unroll
@@ -532,6 +552,21 @@ class ExecMixin(object):
                 z3.Select(d.keys, z3.Select(karr, i)), z3.Length(z3.Select(karr, i)) >= 1), "dict-keys"))
             self.assumptions.add("iteration over a dict: an arbitrary list of its keys; keys are non-empty strings")
             elem = lambda k, karr=karr: VStr(z3.Select(karr, k))
+            if getattr(self.unit, "dict_iter_complete", False):
+                # the list enumerates EVERY key: ITERIDX is the (Skolem) position of a key in it.  The contract can then
+                # say "the keys visited so far" as ITERIDX(x) < index
+                from .values import ITERIDX
+                if getattr(self, "_iteridx_used", None) not in (None, id(stmt)):
+                    raise OutOfSubset("two complete dict enumerations in one unit", stmt)
+                self._iteridx_used = id(stmt)
+                st.qf.append(QFact(None, None, lambda x, n=n, karr=karr: z3.And(
+                    0 <= ITERIDX(x), ITERIDX(x) < n, z3.Select(karr, ITERIDX(x)) == x), "dict-keys-complete",
+                    sort="str", guard=lambda x, d=d: z3.Select(d.keys, x)))
+            if dict_items:
+                # d.items(): the value is the one stored at loop entry (mutating the dict while iterating over it is a
+                # RuntimeError in Python: assumed not to happen; the contracts declare d and the written dict distinct)
+                self.assumptions.add("d.items(): d is not mutated inside the loop")
+                elem = lambda k, karr=karr, d=d: VTuple([VStr(z3.Select(karr, k)), wrap(d.ek, z3.Select(d.vals, z3.Select(karr, k)))])
         elif isinstance(it, VRef) and isinstance(st.heap[it.oid], HRecList):
             rl = st.heap[it.oid]
             n = rl.n
